@@ -40,20 +40,13 @@ Proof.
   - exfalso. destruct (P1 k e Ep) as [(tk' & E' & _)|[[] _]]. congruence.
 Qed.
 
-Theorem checked_history_ready2 tr pe nodes l r :
-  wf_net_b n = true ->
-  preA_trace_b n tr (init_state n) = true -> tail_ok_b tr = true ->
-  let s1 := run n tr (init_state n) in
+Lemma ready_core s1 pe nodes l r : wf_net_b n = true -> QP n s1 -> PBe s1 ->
   let s := extract_all n pe nodes s1 in
   nodes_ok_b s1 nodes = true -> sorted_keys_b s = true -> err s = false ->
   tree_of (tfuel s) (children s) (seq 0 N) = Some (Node l r) ->
   contractible_b n s (Node l r) = true /\ PB s.
 Proof.
-  intros Hwf Hpre Htail s1 s Hnodes Hsorted He Ht.
-  destruct (run_preserves_QP n HN Hout tr (init_state n) (init_state_QP n HN) (preA_trace_b_sound n Hout tr _ Hpre)) as [[I1 A1] Q1].
-  fold s1 in I1, A1, Q1.
-  assert (P1 : PBe s1).
-  { unfold s1. rewrite <- (rev_involutive tr). apply tail_PBe; try assumption; [rewrite rev_involutive; exact Hpre]. }
+  intros Hwf [[I1 A1] Q1] P1 s Hnodes Hsorted He Ht.
   unfold nodes_ok_b in Hnodes. apply andb_true_iff in Hnodes. destruct Hnodes as [Hn1 Hn2].
   rewrite forallb_forall in Hn1, Hn2.
   destruct (extract_ok n HN Hout pe nodes s1 (conj I1 (conj A1 P1))) as ((I2&A2&P2)&M2&F2).
@@ -90,6 +83,21 @@ Proof.
   intros p l' r' E. rewrite Ec in E. specialize (Hn2 _ (nget_In _ _ _ E)). cbn [fst] in Hn2.
   apply existsb_exists in Hn2. destruct Hn2 as (e & Hin & Heq). apply node_eqb_eq in Heq.
   rewrite <- Heq. apply (mrl_filled n s2 s _ _ _ M3). apply (F2 He2 e l' r' Hin). rewrite Heq. exact E.
+Qed.
+
+Theorem checked_history_ready2 tr pe nodes l r :
+  wf_net_b n = true ->
+  preA_trace_b n tr (init_state n) = true -> tail_ok_b tr = true ->
+  let s1 := run n tr (init_state n) in
+  let s := extract_all n pe nodes s1 in
+  nodes_ok_b s1 nodes = true -> sorted_keys_b s = true -> err s = false ->
+  tree_of (tfuel s) (children s) (seq 0 N) = Some (Node l r) ->
+  contractible_b n s (Node l r) = true /\ PB s.
+Proof.
+  intros Hwf Hpre Htail s1 s Hnodes Hsorted He Ht.
+  apply (ready_core s1 pe nodes l r Hwf); try assumption.
+  - apply (run_preserves_QP n HN Hout tr (init_state n) (init_state_QP n HN) (preA_trace_b_sound n Hout tr _ Hpre)).
+  - unfold s1. rewrite <- (rev_involutive tr). apply tail_PBe; try assumption; [rewrite rev_involutive; exact Hpre].
 Qed.
 End Ready2.
 
